@@ -1,6 +1,6 @@
 ---------------------------- MODULE Fn_GlobDiag ----------------------------
-(* C28 violation reports: writes, for the records Fn_Glob!RecOK rejected, what the model expects *)
-EXTENDS Fn_Glob, Json
+(* C28 violation reports: writes, for the records Fn_GlobRec!RecOK rejected, what the model expects *)
+EXTENDS Fn_GlobRec, Json
 DRecs == ndJsonDeserialize("bad.ndjson")
 ASSUME ndJsonSerialize("exp.ndjson",
           [k \in 1..Len(DRecs) |-> [l |-> SetToSeq(ExpectedL(DRecs[k])), need |-> SetToSeq(ExpectedNeed(DRecs[k])),
